@@ -1,6 +1,7 @@
 //! C18 — the indexer's answers equal filtering the chain's live cells and transactions.
 //!
-//! Two sub-properties:
+//! Four sub-properties (`rich` and `rich-node` live in `c18_rich.rs`: the same walks and the same
+//! brute-force model against the rich-indexer / sqlite, directly and through a node + sync loop):
 //! * `direct`: the real `Indexer<RocksdbStore>` (hook 6) is driven with append / rollback along a
 //!   generated main-chain walk with reorganisations over a wide script universe (shared code
 //!   hashes, args that are prefixes of one another, empty args, 0x00 args, args that look like
@@ -11,6 +12,10 @@
 //!   real sync loop step (`IndexerSyncService::try_loop_sync` over a `SecondaryDB`).
 use crate::c18_check::*;
 use crate::c18_model::*;
+use crate::c18_rich::{
+    RICH_CASES, RICH_NODE_CASES, RichCase, RichNodeCase, SUB_RICH, SUB_RICH_NODE, prop_rich, prop_rich_node, rich_case_strategy,
+    rich_node_case_strategy,
+};
 use crate::common::*;
 use crate::vfail;
 use ckb_indexer::verif::VerifIndexer;
@@ -30,12 +35,13 @@ pub fn spec() -> CheckSpec {
     CheckSpec {
         id: "C18",
         level: "exploration",
-        rule: "proptest: (direct) main-chain walks with reorganisations (append along a branch, rollback to the fork point within keep_num, append the other branch; rolled-back transactions may be re-committed) over a script universe with shared code hashes, args that are prefixes of one another incl. empty / 0x00 / big-endian-number args, optional type scripts, in-block create+consume, data sizes 0..40, driven into the real Indexer<RocksdbStore> with small keep_num / prune_interval; after every append and rollback: get_indexer_tip, and a query battery (every script seen so far and its one-byte truncations / 0x00,0x01,0xff,BE-position extensions x lock|type x prefix|exact|partial x get_cells / get_transactions ungrouped+grouped / get_cells_capacity) plus generated queries with filters (script prefix, script_len_range, output_data+mode, data_len_range, capacity_range, block_range with bounds at observed values +-1), asc/desc, page sizes 1..5 with cursor chaining, with_data; oracle = brute-force filter over the model's live cells / transaction entries (documented semantics), desc = reverse(asc), pages concatenated = one-shot answer ending with an empty page; rollback inverse: answers of the battery and the raw rows of the five query-visible key families before append(b) equal those after append(b); rollback(), and re-append restores the post-append answers. (node-sync) the same oracle on a real node + real sync loop step. non-trivial = the history rolls back a block that consumed a cell created >= 2 blocks earlier AND a prefix search whose script is a strict prefix of another occurring script's args was evaluated after it; distinct by hash of the case.",
+        rule: "proptest: (direct) main-chain walks with reorganisations (append along a branch, rollback to the fork point within keep_num, append the other branch; rolled-back transactions may be re-committed) over a script universe with shared code hashes, args that are prefixes of one another incl. empty / 0x00 / big-endian-number args, optional type scripts, in-block create+consume, data sizes 0..40, driven into the real Indexer<RocksdbStore> with small keep_num / prune_interval; after every append and rollback: get_indexer_tip, and a query battery (every script seen so far and its one-byte truncations / 0x00,0x01,0xff,BE-position extensions x lock|type x prefix|exact|partial x get_cells / get_transactions ungrouped+grouped / get_cells_capacity) plus generated queries with filters (script prefix, script_len_range, output_data+mode, data_len_range, capacity_range, block_range with bounds at observed values +-1), asc/desc, page sizes 1..5 with cursor chaining, with_data; oracle = brute-force filter over the model's live cells / transaction entries (documented semantics), desc = reverse(asc), pages concatenated = one-shot answer ending with an empty page; rollback inverse: answers of the battery and the raw rows of the five query-visible key families before append(b) equal those after append(b); rollback(), and re-append restores the post-append answers. (node-sync) the same oracle on a real node + real sync loop step. (rich) the same walks, extended with uncles, proposals, cell deps and header deps, args ending in 0xff and hash type data2, reorganisations of any depth (the rich-indexer has no retention), driven into the real RichIndexer over a fresh sqlite database (in-memory or file); the oracle uses the semantics documented for the rich-indexer RPCs: script_search_mode prefix|exact|partial (partial keys = inner slices of occurring args), every cell filter also on get_transactions, half-open ranges, transactions in chain order with every transaction once, cells inside one transaction unordered, desc = asc reversed transaction by transaction, pages concatenated = one-shot answer ending with an empty page (ungrouped pages may cut a transaction), grouped+exact = one group per transaction; no tolerance for the RocksDB indexer's recorded prefix false positive; rollback inverse on the answers of the battery AND on the dump of every sqlite table (script ids replaced by the script they name), both for append(b); rollback() and for a reorganisation that returns to a height whose dump was recorded earlier; re-append restores answers and tables. (rich-node) the rich oracle on a real node + real sync loop step (IndexerSyncService::try_loop_sync with the RichIndexer), block plans arranged so that rival branches overtake the main chain, blocks with uncles. non-trivial = the history rolls back a block that consumed a cell created >= 2 blocks earlier AND a prefix search whose script is a strict prefix of another occurring script's args was evaluated after it; distinct by hash of the case.",
         assumptions: &[
             "direct mode feeds structurally well-formed blocks that are not consensus-valid (no PoW/DAO/capacity rules): the indexer never verifies blocks; node-sync mode uses fully valid blocks",
             "order between different scripts inside one prefix search is not documented: the oracle requires multiset equality, ascending chain order per script, desc = reverse(asc); exact searches are compared as fully ordered lists",
             "group_by_transaction with prefix search is documented as unsupported: only flatten(groups) = ungrouped answer is required there",
             "the tx-pool overlay (index_tx_pool) and the rhai block/cell filters are off",
+            "rich-indexer: sqlite only (postgres needs a server); get_cells_capacity answers null when no live cell matches and the RPC does not say when the optional object is absent: null is accepted for an empty match set; filter.script of get_transactions is documented once as 'type script' and once as 'type script prefix': either reading is accepted (the implementation's is prefix); the order of cells inside one transaction and the grouping of non-exact grouped searches are not documented and not asserted; table ids are compared as they are (sqlite hands out max+1, so a rollback frees exactly the ids of the removed rows)",
         ],
         workers: |_| 8,
         watchdog_s: |t| t.pick(1200, 7200),
@@ -162,7 +168,7 @@ fn op_strategy() -> impl Strategy<Value = Op> {
     ]
 }
 
-fn qsel_strategy() -> impl Strategy<Value = QSel> {
+pub fn qsel_strategy() -> impl Strategy<Value = QSel> {
     (
         0u8..4,
         any::<u16>(),
@@ -219,7 +225,7 @@ pub fn raw_of_sel(s: &SSel) -> Vec<u8> {
     v
 }
 
-fn output_of(p: &OutPlan) -> (CellOutput, Bytes) {
+pub fn output_of(p: &OutPlan) -> (CellOutput, Bytes) {
     let data = data_universe();
     let d = data[p.data as usize % data.len()].clone();
     let mut b = CellOutput::new_builder()
@@ -262,7 +268,7 @@ impl Seen {
     }
 }
 
-fn build_block(number: u64, parent: &packed::Byte32, salt: u64, plan_cellbase: &[OutPlan], txs: Vec<TransactionView>) -> BlockView {
+pub fn build_block(number: u64, parent: &packed::Byte32, salt: u64, plan_cellbase: &[OutPlan], txs: Vec<TransactionView>) -> BlockView {
     let mut cb = TransactionBuilder::default()
         .input(CellInput::new_cellbase_input(number))
         .witness(Bytes::from(salt.to_le_bytes().to_vec()).pack());
@@ -283,7 +289,7 @@ fn build_block(number: u64, parent: &packed::Byte32, salt: u64, plan_cellbase: &
 }
 
 /// transactions of a block plan over the cells live at `state` (+ created earlier in the block)
-fn build_txs(
+pub fn build_txs(
     state: &MState,
     plan: &BlockPlan,
     orphans: &[TransactionView],
@@ -758,11 +764,11 @@ impl Walk {
     }
 }
 
-fn clip(s: &str) -> String {
+pub fn clip(s: &str) -> String {
     if s.len() > 600 { format!("{}…", &s[..600]) } else { s.to_string() }
 }
 
-fn tol_of<'a>(f: &'a dyn Fn(&str) -> bool) -> Tol<'a> {
+pub fn tol_of<'a>(f: &'a dyn Fn(&str) -> bool) -> Tol<'a> {
     Tol { known: f }
 }
 
@@ -872,7 +878,7 @@ fn node_tx_step() -> impl Strategy<Value = TxStep> {
         })
 }
 
-fn node_block_step() -> impl Strategy<Value = BlockStep> {
+pub fn node_block_step() -> impl Strategy<Value = BlockStep> {
     (
         prop_oneof![35 => Just(0u8), 45 => Just(1u8), 20 => Just(2u8)],
         any::<u16>(),
@@ -917,7 +923,7 @@ fn as_script(env: &Env, args: &[u8]) -> packed::Script {
     env.always_success_lock.clone().as_builder().args(Bytes::from(args.to_vec()).pack()).build()
 }
 
-fn node_spendable(env: &Env, c: &LiveCell) -> bool {
+pub fn node_spendable(env: &Env, c: &LiveCell) -> bool {
     let ok = |s: &packed::Script| {
         s.code_hash() == env.always_success_lock.code_hash() && s.hash_type() == env.always_success_lock.hash_type()
     };
@@ -926,7 +932,7 @@ fn node_spendable(env: &Env, c: &LiveCell) -> bool {
 
 /// like plan::build_tx, but every output draws its lock args, optional always_success type
 /// script and data from the C18 universe
-fn node_build_tx(env: &Env, step: &TxStep, avail: &mut BTreeMap<CellKey, (CellOutput, usize)>) -> Option<TransactionView> {
+pub fn node_build_tx(env: &Env, step: &TxStep, avail: &mut BTreeMap<CellKey, (CellOutput, usize)>) -> Option<TransactionView> {
     if avail.is_empty() {
         return None;
     }
@@ -991,7 +997,7 @@ fn node_build_tx(env: &Env, step: &TxStep, avail: &mut BTreeMap<CellKey, (CellOu
     Some(tx)
 }
 
-fn node_env() -> &'static Env {
+pub fn node_env() -> &'static Env {
     static ENV: std::sync::OnceLock<Env> = std::sync::OnceLock::new();
     ENV.get_or_init(|| build_env(&SpecCfg::default()))
 }
@@ -1180,14 +1186,34 @@ pub fn prop_node(ctx: &Ctx, c: &NodeCase, st: &mut Stats) -> Verdict {
 }
 
 fn run(ctx: &Ctx) {
-    ctx.shrink_iters.set(250);
-    let cases = ctx.cases(1000, 20000);
-    let max_ops = ctx.tier.pick(14, 24);
-    ctx.run_prop("direct", cases, case_strategy(max_ops), |c, st| prop_direct(ctx, c, st));
-    ctx.shrink_iters.set(100);
-    let cases = ctx.cases(160, 3200);
-    let max_blocks = ctx.tier.pick(30, 50);
-    ctx.run_prop("node-sync", cases, node_case_strategy(max_blocks), |c, st| prop_node(ctx, c, st));
+    // development aid: VERIF_C18_SUB=<name>[,<name>..] runs these sub-checks only
+    // (direct, node-sync, rich, rich-node)
+    let only = std::env::var("VERIF_C18_SUB").ok();
+    let want = |name: &str| only.as_deref().map(|o| o.split(',').any(|x| x.trim() == name)).unwrap_or(true);
+    if want("direct") {
+        ctx.shrink_iters.set(250);
+        let cases = ctx.cases(1000, 20000);
+        let max_ops = ctx.tier.pick(14, 24);
+        ctx.run_prop("direct", cases, case_strategy(max_ops), |c, st| prop_direct(ctx, c, st));
+    }
+    if want("node-sync") {
+        ctx.shrink_iters.set(100);
+        let cases = ctx.cases(160, 3200);
+        let max_blocks = ctx.tier.pick(30, 50);
+        ctx.run_prop("node-sync", cases, node_case_strategy(max_blocks), |c, st| prop_node(ctx, c, st));
+    }
+    if want(SUB_RICH) {
+        ctx.shrink_iters.set(120);
+        let cases = ctx.cases(RICH_CASES.0, RICH_CASES.1);
+        let max_ops = ctx.tier.pick(12, 20);
+        ctx.run_prop(SUB_RICH, cases, rich_case_strategy(max_ops), |c, st| prop_rich(ctx, c, st));
+    }
+    if want(SUB_RICH_NODE) {
+        ctx.shrink_iters.set(60);
+        let cases = ctx.cases(RICH_NODE_CASES.0, RICH_NODE_CASES.1);
+        let max_blocks = ctx.tier.pick(26, 44);
+        ctx.run_prop(SUB_RICH_NODE, cases, rich_node_case_strategy(max_blocks), |c, st| prop_rich_node(ctx, c, st));
+    }
 }
 
 fn replay(ctx: &Ctx, sub: &str, v: &Value) -> Verdict {
@@ -1196,6 +1222,14 @@ fn replay(ctx: &Ctx, sub: &str, v: &Value) -> Verdict {
         "node-sync" => {
             let c: NodeCase = from_case(v)?;
             prop_node(ctx, &c, &mut st)
+        }
+        SUB_RICH => {
+            let c: RichCase = from_case(v)?;
+            prop_rich(ctx, &c, &mut st)
+        }
+        SUB_RICH_NODE => {
+            let c: RichNodeCase = from_case(v)?;
+            prop_rich_node(ctx, &c, &mut st)
         }
         _ => {
             let c: Case = from_case(v)?;
